@@ -204,7 +204,9 @@ def run(ctx):
             if len(counters) == 1:
                 counter = list(counters)[0]
             res = []
-            entry_rx = r"^Try::branch\(%s\([^()]*\)\)↓Continue\.0$" % re.escape(short(parsers.get("skip_opt_in") or "FileAndHash::skip_opt_in"))
+            _sk = re.escape(short(parsers.get("skip_opt_in") or "FileAndHash::skip_opt_in"))
+            # the Ok payload of the parser's result, through `?` or through a `match` on the Result itself
+            entry_rx = r"^(?:Try::branch\(%s\([^()]*\)\)↓Continue\.0|%s\([^()]*\)↓Ok\.0)$" % (_sk, _sk)
             for sw, some_t in option_some_edges(lb, oc.sym, entry_rx):
                 reach = lb.reachable(some_t, removed_blocks=set(oc.fail_blocks) | inc_blocks)
                 bad = sw in reach or any(c.bb in reach for c in lb.calls() if is_skip(c)) or \
@@ -1000,6 +1002,71 @@ def eq_bytes_literals(f, body, term, truth, depth=0):
     return {(arg, v) for v in lits.values()}
 
 
+
+_PATH_LANGS = {}
+
+
+def path_check_languages(f, b):
+    """{outcome: [shape]} of the first round of the rsync path check `b` (see ShapeExec.first_round_languages): outcomes are
+    "Ok", "continue" and the names of the uri::Error variants answered.  None when the shape domain cannot follow it."""
+    key = (id(f), b.name)
+    if key in _PATH_LANGS:
+        return _PATH_LANGS[key]
+    vnames = [v["name"] for v in (f.adts.get("uri::Error") or {"variants": []})["variants"]]
+
+    def label(v):
+        if v[0] == "enum" and v[1] == _RES:
+            if v[2] == 0:
+                return "Ok"
+            inner = dict(v[3]).get("0")
+            if inner and inner[0] == "enum" and inner[1] == "uri::Error" and inner[2] < len(vnames):
+                return vnames[inner[2]]
+        raise LangFail("returns something other than Ok(()) / Err(uri::Error)")
+    argi = next((i for i in range(b.arg_count) if b.local_ty(i + 1) in ("&[u8]", "&'a [u8]")), None)
+    res = None
+    if argi is not None:
+        try:
+            res = ShapeExec(f).first_round_languages(b, argi, label)
+        except LangFail as e:
+            res = None
+    _PATH_LANGS[key] = res
+    return res
+
+
+def _path_spec():
+    ALLB_ = frozenset(range(256))
+    slash, dot = frozenset([0x2f]), frozenset([0x2e])
+    seg = ALLB_ - slash
+    rest = (("B", slash), ("S", ALLB_))
+    nondot = [(("B", seg - dot), ("S", seg)), (("B", dot), ("B", seg - dot), ("S", seg)), (("B", dot), ("B", dot), ("B", seg), ("S", seg))]
+    return {
+        # decided within the first segment of the path
+        "DotSegments": [(("B", dot),), (("B", dot), ("B", dot)), (("B", dot),) + rest, (("B", dot), ("B", dot)) + rest],
+        "EmptySegments": [rest],
+        "Ok": [()],
+        "continue": nondot + [x + rest for x in nondot],
+    }
+
+
+def path_language_verdict(f, b):
+    """(ok, detail) from the languages of the first round, or None when they cannot be computed."""
+    langs = path_check_languages(f, b)
+    if langs is None:
+        return None
+    detail = {}
+    PATH_SPEC = _path_spec()
+    for k in sorted(set(langs) | set(PATH_SPEC)):
+        got, want = langs.get(k, []), PATH_SPEC.get(k, [])
+        try:
+            d = lang_diff(got, want)
+        except LangFail as e:
+            return None
+        if d is not None:
+            w, ina, inb = d
+            detail[k] = "%r is %s by the code, %s by the rule" % (w, "so answered" if ina else "not so answered",
+                                                                  "expected" if inb else "not expected")
+    return (not detail, detail)
+
 def check_join_dot_segments(ctx, f):
     """What Rsync::check_path (hence Rsync::join) rejects as a dot segment is exactly "." and ".." — not, say, every
     segment that starts with a dot: a manifest may legitimately list ".cer"-like names that the name check accepts."""
@@ -1030,6 +1097,13 @@ def check_join_dot_segments(ctx, f):
                 lits |= got
     who = {w for w, _ in lits}
     ok = target is not None and not problems and len(who) == 1 and {v for _, v in lits} == {b".", b".."}
+    # the same fact decided on languages: for which paths does the first round of the check answer what — exact for any
+    # spelling of the segment tests (comparisons, slice patterns, `matches!`, helpers); it overrides the reading of tests
+    lv = path_language_verdict(f, b)
+    if lv is not None:
+        ok = lv[0]
+        if not ok:
+            problems = problems + ["%s: %s" % kv for kv in sorted(lv[1].items())]
     ctx.ob("R-CLS", "Rsync::check_path:dot-segments-are-exactly-.-and-..", ok,
            'Rsync::check_path answers DotSegments exactly for a segment equal to "." or ".."', where=b.loc,
            detail={"tests": sorted(shown), "problems": problems,
@@ -1086,7 +1160,13 @@ def check_join_failure_kinds(ctx, f):
         ctx.ob("R-CLS", "Rsync::join:failure-kinds", not own and bool(chk) and len(ascii_) <= 1,
                "Rsync::join refuses a path only through the character check and %s" % short(b.name), where=jb.loc,
                detail={"own_refusals": own, "refusing_callees": via})
-    ctx.ob("R-CLS", "Rsync::check_path:failure-kinds", not extra and not probs and "DotSegments" in kinds,
+    lv = path_language_verdict(f, b)
+    okk = not extra and not probs and "DotSegments" in kinds
+    if lv is not None and not extra:
+        # languages of the first round: EmptySegments exactly for an empty segment that is not the last, nothing else refused
+        okk = lv[0]
+        probs = ["%s: %s" % kv for kv in sorted(lv[1].items())]
+    ctx.ob("R-CLS", "Rsync::check_path:failure-kinds", okk,
            "%s refuses a path only for dot segments and empty segments" % short(b.name), where=b.loc,
            detail={"kinds": {k: len(v) for k, v in kinds.items()}, "unreviewed_kinds": extra, "problems": probs})
 
@@ -1186,6 +1266,8 @@ class ShapeExec:
         self.max_steps = max_steps
         self._heads = {}
         self._pcls = {}
+        self.first_round = None
+        self.first_round_frame = None
 
     def fresh(self):
         self.n += 1
@@ -1202,6 +1284,28 @@ class ShapeExec:
             if self.is_success(v) and all(c or k == "S" for k, c in st2.cells):
                 shapes.append(st2.shape())
         return shapes
+
+    def first_round_languages(self, body, arg_index=0, label=None):
+        """{label: [shape]} of the inputs for which the function returns during the first round of its loop(s) — `label(v)`
+        names the returned value — plus "continue" for the inputs with which a loop head is reached a second time (every
+        later round runs the same code on the rest of the input)."""
+        s, e = self.fresh(), self.fresh()
+        st = _St([s, e], [("S", ALLB)])
+        args = [("opaque", "arg")] * body.arg_count
+        args[arg_index] = ("slice", s, e)
+        self.first_round = []
+        self.first_round_frame = self.n + 1         # the frame id exec_body is about to draw
+        out = {}
+        try:
+            for st2, v in self.exec_body(body, st, args, 0):
+                if all(c or k == "S" for k, c in st2.cells):
+                    out.setdefault(label(v) if label else repr(v[:3]), []).append(st2.shape())
+            for st2 in self.first_round:
+                if all(c or k == "S" for k, c in st2.cells):
+                    out.setdefault("continue", []).append(st2.shape())
+        finally:
+            self.first_round = None
+        return out
 
     @staticmethod
     def is_success(v):
@@ -1653,6 +1757,10 @@ class ShapeExec:
             locs = [(fi, l) for fi, fr in st.frames.items() for l in fr]
             st.loops[key] = ("probe", locs, self._snap(st, locs), None)
             return st
+        if self.first_round is not None and fid == self.first_round_frame:
+            # only the first round of the outermost loops is wanted: arriving at a head again is an outcome of its own
+            self.first_round.append(st)
+            return None
         stage, locs, snap, runmark = info
         if self._snap(st, locs) == snap:
             return None                                   # nothing consumed: no new inputs reach the head this way
